@@ -396,7 +396,7 @@ def r184(P, rep):
                     rep.ob('R18.4', '%s:%s:line_no=physical-count' % (un, fname), True, '', where=where)
                     continue
                 r = rhs.strip_all() if rhs is not None else None
-                if op == '=' and r is not None and r.kind == 'MemberExpr' and r.name == 'line_no':
+                if op == '=' and r is not None and _line_copy(fd, r):
                     rep.ob('R18.4', '%s:%s:line_no=copied' % (un, fname), True, '', where=where)
                     continue
                 what = op + (_short(r) if r is not None else '')
@@ -449,6 +449,28 @@ def r184(P, rep):
         rep.undecided('R18.4', '%s:%s:no-location-prefix' % (T, fn), 'verror_at has no fprintf of a "%s:%d" location prefix', where=W)
 
 
+def _line_copy(fd, r, depth=0):
+    """r is some token's line_no, or a local variable of the function every definition of which is (initialiser, plain assignments; never modified otherwise, address not taken)"""
+    r = r.strip_all()
+    if r.kind == 'MemberExpr' and r.name == 'line_no':
+        return True
+    if r.kind != 'DeclRefExpr' or depth > 3:
+        return False
+    decl = [d for d in fd.walk() if d.kind == 'VarDecl' and d.name == r.ref_name and getattr(d, 'id', None) == r.ref_id]
+    if len(decl) != 1 or decl[0].d.get('storageClass') == 'static':
+        return False
+    defs = [x for x in decl[0].inner if x.kind not in ('FullComment',)]
+    for n in fd.walk():
+        if n.kind in ('BinaryOperator', 'CompoundAssignOperator', 'UnaryOperator') and n.inner:
+            t = n.inner[0].strip()
+            if t.kind == 'DeclRefExpr' and t.ref_id == r.ref_id:
+                if n.kind == 'BinaryOperator' and n.opcode == '=':
+                    defs.append(n.inner[1])
+                elif n.kind == 'CompoundAssignOperator' or n.opcode in ('++', '--', '&'):
+                    return False
+    return bool(defs) and all(_line_copy(fd, x, depth + 1) for x in defs)
+
+
 def _short(n):
     if n.kind == 'MemberExpr':
         return n.name
@@ -465,18 +487,28 @@ MAKERS = ('new_token', 'read_string_literal', 'read_utf16_string_literal', 'read
 
 def r185(P, rep):
     rep.rule('R18.5', 'a token synthesised from a template token (number/string tokens of builtin macros, `defined`, #, ##, converted string literals) '
-             'carries the line and the file identity of its template', floor=8)
+             'carries the line and the file identity of its template, and of ONE template: every position field of a created or re-positioned token that is read from a token '
+             '(line_no; the File pointer, or name, number and display name of the File made for it) is read from the same token', floor=8)
     tu = P.unit(T)
     eof = tu.enum_value('TK_EOF')
-    sites = []      # (unit, function)
+    sites = []      # (unit, function): creates a token outside tokenize(), or stores the line or the file of a token (a created token adjusted after a helper made it)
+    from .lib_c18e import callgraph, closure
+    scanner = closure(callgraph(tu), ['tokenize'])
+    direct = set()
     for un in P.unit_names:
         u = P.unit(un)
+        setters = _position_setters(u)
         for fname, fd in u.functions.items():
             if un == T and (fname in ('tokenize', 'tokenize_file') or fname in MAKERS):
                 continue
             if not _tok_params(u, fname):
                 continue
+            if un == T and fname in scanner:
+                continue          # the scanner and the line count themselves (R18.3)
             if fd.calls('tokenize') or fd.calls(MAKERS):
+                direct.add(fname)
+                sites.append((un, fname))
+            elif _writes_position(fd, setters):
                 sites.append((un, fname))
     if len(sites) < 3:
         rep.undecided('R18.5', 'preprocess.c:synthesisers', 'fewer than 3 functions synthesise tokens from a template (%s)' % sites)
@@ -495,6 +527,7 @@ def r185(P, rep):
         t.fields.update({'line_no': 0, 'file': Sym('current_file', 'File *'), 'next': 0, 'origin': 0})
         ctx.emit('call', call.callee(), args, call.line, t)
         return t
+    n_one = set()
     for un, fname in sorted(sites):
         u = P.unit(un)
         W = '%s:%d' % (un, u.fn(fname).line)
@@ -524,8 +557,19 @@ def r185(P, rep):
             if out[0] != 'ret':
                 continue
             r = it.settle(out[1]) if isinstance(out[1], View) else out[1]
+            facts = {'path': ctx.trail}
+            for e in ctx.events:      # any other token whose line or file this path stores (a copy that is re-positioned)
+                if e[0] == 'fstore' and e[2] in ('line_no', 'file') and isinstance(e[1], Obj) and e[1].tname == 'Token' and not (e[1] is r and r.label in ('synth', 'scanned')):
+                    k1 = _one_template(it, rep, e[1], base, fname, W, facts)
+                    n_one.add((base, k1))
+                    if not k1 and _template_path(e[4]) is not None and e[1].label not in tp and not any(x[0] == 'fstore' and x[1] is e[1] and x[2] in ('line_no', 'file') and x[2] != e[2] for x in ctx.events):
+                        rep.undecided('R18.5', base + ':one-template/%s-stored-alone' % e[2], '%s() stores the %s of `%s` into a token without storing the other half of the position; '
+                                      'whether the token already is in the file of `%s` is not decided' % (fname, e[2], _template_path(e[4]), _template_path(e[4])), where=W)
             if not isinstance(r, Obj) or r.label not in ('synth', 'scanned'):
-                continue          # returns an existing token
+                if fname in direct:
+                    continue          # returns an existing token
+                n += 1
+                continue
             n += 1
             facts = {'path': ctx.trail}
             ln = r.fields.get('line_no')
@@ -547,10 +591,96 @@ def r185(P, rep):
                     okf = any(getattr(nm, 'name', None) == t + '.file.name' and getattr(no, 'name', None) == t + '.file.file_no' for t in tp)
                     why = 'a new File(name=%r, file_no=%r)' % (nm, no)
             _scratch_rescans_spellings(it, rep, ctx, base, fname, W, facts)
+            n_one.add((base, _one_template(it, rep, r, base, fname, W, facts)))
             rep.ob('R18.5', base + ':file-identity-inherited', okf,
                    'the token returned by %s belongs to %s, not to a file with the name and number of its template\'s file: diagnostics name another file and .loc refers to another (or no) .file entry' % (fname, why), where=W, facts=facts)
         if n == 0:
             rep.undecided('R18.5', base + ':no-path', 'no path of %s returns a synthesised token' % fname, where=W)
+    live = len(set(b for b, k in n_one if k > 0))
+    if live < 2:
+        rep.undecided('R18.5', 'preprocess.c:synthesisers:one-template-liveness', 'the line and the file of a created token could be traced to position fields of tokens in only %d functions '
+                      '(expected at least 2): that both come from ONE template token is not decided' % live)
+
+
+_POS_SUFFIX = (('.file.display_name', 'name'), ('.file.file_no', 'number'), ('.file.name', 'name'), ('.line_no', 'line'), ('.file', 'file'))
+
+
+def _template_path(v):
+    """the token a position value was read from: `hash.line_no` -> 'hash', `arg.file.name` -> 'arg', the File pointer `lhs.file` -> 'lhs'; None when the value
+    is not a position field of a token (a constant, a global, a computed value: the other obligations of R18.5 judge those)"""
+    nm = None
+    if isinstance(v, Sym):
+        nm = v.name
+    elif isinstance(v, View) and v.tag == 'id':
+        nm = v.cell.label
+    elif isinstance(v, Obj):
+        nm = v.label
+    if not isinstance(nm, str):
+        return None
+    for suf, _ in _POS_SUFFIX:
+        if nm.endswith(suf) and len(nm) > len(suf):
+            return nm[:-len(suf)]
+    return None
+
+
+def position_sources(it, tok):
+    """[(position field of the created token, template token it was read from)] for every position field diagnostics and .loc use (line_no; the File pointer, or the name,
+    number and display name of a File made for the token) whose value is a position field of some token"""
+    out = []
+    t = _template_path(tok.fields.get('line_no'))
+    if t is not None:
+        out.append(('line_no', t))
+    f = tok.fields.get('file')
+    f = it.settle(f) if isinstance(f, View) else f
+    t = _template_path(f)
+    if t is not None:
+        out.append(('file', t))
+    elif isinstance(f, Obj):
+        for fld in ('name', 'file_no', 'display_name'):
+            t = _template_path(f.fields.get(fld))
+            if t is not None:
+                out.append(('file.' + fld, t))
+    return out
+
+
+def _one_template(it, rep, tok, base, fname, W, facts):
+    """the position of a created token is ONE position: the line is a line OF the file. Every position field that is read from a token is read from the same token"""
+    src = position_sources(it, tok)
+    if len(src) < 2:
+        return 0        # nothing to compare: line-inherited / file-identity-inherited judge a field that comes from no token
+    ref_f, ref_t = src[0]
+    for fld, t in src[1:]:
+        rep.ob('R18.5', base + ':one-template/%s-and-%s' % (ref_f, fld), t == ref_t,
+               'the token %s() creates takes its %s from `%s` and its %s from `%s`: two tokens that need not be in the same file (a macro defined in a header and used elsewhere, '
+               'a macro argument written in another file than the macro body), so diagnostics and .loc on the token name line %s.line_no of the file of %s, a position where no such token is'
+               % (fname, ref_f, ref_t, fld, t, ref_t, t), where=W, facts=facts)
+    return len(src) - 1
+
+
+def _writes_position(fd, setters=()):
+    """the function assigns Token.line_no or Token.file, itself or through a helper that assigns them in a token it is given (`setters`)"""
+    for n in fd.walk():
+        if n.kind == 'BinaryOperator' and n.opcode == '=':
+            t = n.inner[0].strip()
+            if t.kind == 'MemberExpr' and t.name in ('line_no', 'file') and 'Token' in (t.inner[0].dtype or t.inner[0].type or ''):
+                return True
+        if setters and n.kind == 'CallExpr' and n.callee() in setters:
+            return True
+    return False
+
+
+def _position_setters(u):
+    """functions of the unit that assign line_no / file of a token they receive as a parameter: their callers position the token"""
+    out = set()
+    for fname, fd in u.functions.items():
+        for n in fd.walk():
+            if n.kind == 'BinaryOperator' and n.opcode == '=':
+                t = n.inner[0].strip()
+                if t.kind == 'MemberExpr' and t.name in ('line_no', 'file') and 'Token' in (t.inner[0].dtype or t.inner[0].type or ''):
+                    b = t.inner[0].strip_all()
+                    if b.kind == 'DeclRefExpr' and b.ref_kind == 'ParmVarDecl':
+                        out.add(fname)
+    return out
 
 
 def _scratch_rescans_spellings(it, rep, ctx, base, fname, W, facts):
